@@ -193,9 +193,12 @@ theorem iri_zero {ln lp ln' lp' p n : Nat}
     simp [a, b, a', b']
 
 theorem iriIndices_good {te : TermEnc} (inv : WInv te) (iri : String) :
+    (∃ te' e, te.iriIndices iri = (te', .error e)) ∨
     ∃ te' rows p n, te.iriIndices iri = (te', .ok (rows, p, n)) ∧ GoodT te te' rows (some (.iri p n)) := by
   by_cases hup : te.prefixes.lookup.maxSize = 0
-  · obtain ⟨ne1, noid, ne2, nid, hne, hnt, hnu, hnz⟩ := useNameA (k := iri) inv.wfn inv.posn
+  · rcases useNameA (k := iri) inv.wfn inv.posn with herr | ⟨ne1, noid, ne2, nid, hne, hnt, hnu, hnz⟩
+    · exact Or.inl ⟨_, _, iriIndices_err_noprefix hup herr⟩
+    right
     refine ⟨{ te with names := ne2 }, nameEntryRows noid iri, 0, nid,
       iriIndices_eq_noprefix hup hne hnt, ?_, IngestsA.names hnu.mirror, ?_⟩
     · exact ⟨hnu.wf, inv.wfp, inv.wfd, by rw [hnu.max]; exact inv.posn, inv.p0⟩
@@ -203,8 +206,11 @@ theorem iriIndices_good {te : TermEnc} (inv : WInv te) (iri : String) :
       simp only [Spec.optZeroAudit]
       exact iri_zero hnz (Or.inl ⟨rfl, rfl⟩) c
   · have hpos : 0 < te.prefixes.lookup.maxSize := Nat.pos_of_ne_zero hup
-    obtain ⟨pe1, poid, pe2, pid, hpe, hpt, hpu, hpz⟩ := usePrefixA (k := (splitIri iri).1) inv.wfp hpos
-    obtain ⟨ne1, noid, ne2, nid, hne, hnt, hnu, hnz⟩ := useNameA (k := (splitIri iri).2) inv.wfn inv.posn
+    rcases usePrefixA (k := (splitIri iri).1) inv.wfp hpos with herr | ⟨pe1, poid, pe2, pid, hpe, hpt, hpu, hpz⟩
+    · exact Or.inl ⟨_, _, iriIndices_err_prefix1 hup herr⟩
+    rcases useNameA (k := (splitIri iri).2) inv.wfn inv.posn with herr | ⟨ne1, noid, ne2, nid, hne, hnt, hnu, hnz⟩
+    · exact Or.inl ⟨_, _, iriIndices_err_prefix2 hup hpe herr⟩
+    right
     refine ⟨{ te with names := ne2, prefixes := pe2 }, _, pid, nid,
       iriIndices_eq_prefix hup hpe hne hpt hnt, ?_, ?_, ?_⟩
     · exact ⟨hnu.wf, hpu.wf, inv.wfd, by rw [hnu.max]; exact inv.posn,
@@ -235,8 +241,9 @@ theorem literal_good {te te' : TermEnc} (inv : WInv te) (lex : String) (lang dt 
       · have hmb : (te.datatypes.lookup.maxSize == 0) = true := by simp [hm]
         simp [TermEnc.literal, hc, hmb] at h
       · have hmb : (te.datatypes.lookup.maxSize == 0) = false := by simpa using hm
-        obtain ⟨de1, doid, de2, did, hde, hdt, hdu, hdne⟩ :=
-          useDatatypeA (k := d) inv.wfd (Nat.pos_of_ne_zero hm)
+        rcases useDatatypeA (k := d) inv.wfd (Nat.pos_of_ne_zero hm) with herr |
+          ⟨de1, doid, de2, did, hde, hdt, hdu, hdne⟩
+        · simp [TermEnc.literal, hc, hmb, herr] at h
         have hdne' : (did != 0) = true := by simpa using hdne
         simp only [TermEnc.literal, hc, if_true, hmb, Bool.false_eq_true, if_false, hde, hdt, hdne',
           Prod.mk.injEq, Except.ok.injEq] at h
@@ -258,7 +265,8 @@ theorem spo_good : ∀ (t : Term) (te te' : TermEnc) (rows : List Row) (w : WTer
   induction t with
   | iri s =>
     intro te te' rows w inv h
-    obtain ⟨te1, rows1, p, n, heq, hg⟩ := iriIndices_good inv s
+    rcases iriIndices_good inv s with ⟨te1, e, herr⟩ | ⟨te1, rows1, p, n, heq, hg⟩
+    · simp [TermEnc.spo, herr] at h
     simp only [TermEnc.spo, heq, Prod.mk.injEq, Except.ok.injEq] at h
     obtain ⟨rfl, rfl, rfl⟩ := h
     exact hg
@@ -299,7 +307,8 @@ theorem graph_good (t : Term) (te te' : TermEnc) (rows : List Row) (w : WTerm) (
     (h : te.graph t = (te', .ok (rows, w))) : GoodT te te' rows (some w) := by
   cases t with
   | iri s =>
-    obtain ⟨te1, rows1, p, n, heq, hg⟩ := iriIndices_good inv s
+    rcases iriIndices_good inv s with ⟨te1, e, herr⟩ | ⟨te1, rows1, p, n, heq, hg⟩
+    · simp [TermEnc.graph, herr] at h
     simp only [TermEnc.graph, heq, Prod.mk.injEq, Except.ok.injEq] at h
     obtain ⟨rfl, rfl, rfl⟩ := h
     exact hg
